@@ -22,6 +22,14 @@ SIFT_FNS = {
     DPQ: ["heapify", "heapify_min", "heapify_max", "bubble_up", "bubble_up_min", "bubble_up_max", "up_heapify", "heap_build", "find_max", "find_min"],
 }
 DUAL_PAIRS = [("heapify_min", "heapify_max"), ("bubble_up_min", "bubble_up_max")]
+# the index arithmetic of the implicit tree (free functions of the two queue modules)
+TREE_FNS = ["left", "right", "parent", "log2_fast"]
+TREE_FNS_DPQ = ["level"]
+
+
+def tree_fn_keys(Q):
+    mod = Q.rsplit("::", 1)[0]
+    return ["%s::%s" % (mod, n) for n in TREE_FNS + (TREE_FNS_DPQ if Q == DPQ else [])]
 
 
 class Skel:
@@ -267,9 +275,44 @@ class Skel:
                 if l[0] not in ("true", "false"):
                     lits.append(l)
         lits = set(lits)
+        # the body of a continuation closure (`lookup.map(|hit| ..)`) runs exactly when the receiver is Some
+        imp = self.implicit_literal(f)
+        if imp is not None:
+            lits.add(imp)
         # a positive `LEN == k` makes every `LEN != j` redundant (if-chains accumulate them, a match does not)
         lits = simplify_int_literals(lits)
         return sorted(lits)
+
+    def implicit_literal(self, f):
+        if not f.is_closure:
+            return None
+        if not hasattr(self, "_imp"):
+            self._imp = {}
+        if f.key in self._imp:
+            return self._imp[f.key]
+        res = None
+        from .core import OPTION_PAYLOAD_COMBINATORS
+        use = self.view.vp.closure_use(f.key)
+        if use is not None:
+            pf, bb, t, argpos = use
+            if "func" in t and t["func"]["key"] in OPTION_PAYLOAD_COMBINATORS and argpos >= 1:
+                recv = self.fvp.operand(pf, t["args"][0], bb, 10 ** 6)
+                res = ("some(%s)" % self.c(recv), True)
+        self._imp[f.key] = res
+        return res
+
+    def family_skeleton(self, key):
+        """union of the skeletons of a function and the closures defined in it (closure facts carry their implicit
+        `some(receiver)` literal), so that `lookup.map(|hit| ..)` and `let hit = lookup?; ..` read the same"""
+        facts = set()
+        for g in self.view.prog.family(key):
+            for x in self.skeleton(g):
+                if g.is_closure and x.startswith(("RETURNS ", "RETURN ")):
+                    continue
+                facts.add(x)
+        # the root's own RETURN of the combinator call is style-specific: keep only effect / SET / LOOP facts and the
+        # root's RETURNS when it is not a combinator
+        return sorted(x for x in facts if not (x.startswith(("RETURNS ", "RETURN ")) and ("::map(" in x or "::and_then(" in x or "from_residual" in x or "Option::Some(" in x or "Option::None" in x)))
 
     def skeleton(self, f):
         """-> sorted list of fact strings: every effect with the set of branch literals that guard it, the conditions
@@ -620,6 +663,18 @@ def r_sift(ctx, view, Q):
             msg = ("decision skeleton deviates from the reviewed sift algorithm.  REVIEWED BUT ABSENT: %s  ||  PRESENT BUT NOT REVIEWED: %s  ||  where %s" % (
                 " ;; ".join(ab[:len(missing)][:3]) or "-", " ;; ".join(ab[len(missing):][:3]) or "-", " ; ".join(legend)))[:2400]
         ctx.ob("R-SIFT", "%s::%s" % (QNAME[Q], name), ok, f.loc(), msg, missing=missing, extra=extra)
+    for k in tree_fn_keys(Q):
+        f = prog.fn(k)
+        ctx.anchor(k, f is not None)
+        facts = sk.skeleton(f)
+        want = spec.get(k)
+        ctx.anchor("spec for " + k, want is not None)
+        missing = [x for x in want if x not in facts]
+        extra = [x for x in facts if x not in want]
+        ok = not missing and not extra
+        ctx.ob("R-SIFT", "%s::%s" % (QNAME[Q], k.split("::")[-1]), ok, f.loc(),
+               "index arithmetic equals the reviewed one: %s" % "; ".join(x for x in facts if x.startswith("RETURNS")) if ok else
+               "index arithmetic of the implicit tree deviates: reviewed %s, found %s" % (missing[:2], extra[:2]))
     if Q == DPQ:
         for a, b in DUAL_PAIRS:
             fa, fb = skels[a], skels[b]
@@ -635,3 +690,31 @@ def r_sift(ctx, view, Q):
             ctx.ob("R-DUAL", "DoublePriorityQueue::%s~%s" % (a, b), ok, prog.fn("%s::%s" % (Q, b)).loc(), msg)
         # the two mixed arms of bubble_up must be duals of each other: checked through the spec of bubble_up
     return skels
+
+
+PRIM_FNS = ["store::Store::swap", "store::Store::swap_remove", "store::Store::remove"]
+
+
+def r_prim(ctx, view):
+    """R-PRIM: the three index-juggling Store primitives (swap, swap_remove, keyed remove with its four-case repair)
+    equal their reviewed guarded-effect skeletons: every table write with its subscript, its value and the branch
+    literals that guard it"""
+    ctx.cur = view
+    sk = Skel(view)
+    spec = load_spec()
+    ctx.anchor("rules/sift_spec.json", spec is not None)
+    for k in PRIM_FNS:
+        f = view.prog.fn(k)
+        ctx.anchor(k, f is not None)
+        facts = sk.family_skeleton(k)
+        want = spec.get("family:" + k)
+        ctx.anchor("spec for " + k, want is not None)
+        missing = [x for x in want if x not in facts]
+        extra = [x for x in facts if x not in want]
+        ok = not missing and not extra
+        msg = "guarded-effect skeleton (%d facts) equals the reviewed one" % len(facts)
+        if not ok:
+            ab, legend = abbreviate(missing + extra)
+            msg = ("deviates from the reviewed primitive.  REVIEWED BUT ABSENT: %s  ||  PRESENT BUT NOT REVIEWED: %s  ||  where %s" % (
+                " ;; ".join(ab[:len(missing)][:3]) or "-", " ;; ".join(ab[len(missing):][:3]) or "-", " ; ".join(legend)))[:2000]
+        ctx.ob("R-PRIM", k.replace("store::", ""), ok, f.loc(), msg)
